@@ -50,7 +50,7 @@ func c06Params(c *vCase) GossipSubParams {
 }
 
 func TestVerifC06Route(t *testing.T) {
-	vRun(t, "C06.route", vCount(300, 8000), func(c *vCase) {
+	vRun(t, "C06.route", vCount(300, 30000), func(c *vCase) {
 		c.Bubble(func() {
 			r := vNewRig(c)
 			defer r.Close()
